@@ -132,6 +132,24 @@ impl<'a, 'b> SurfGen<'a, 'b> {
             let b = if self.s.flag(170) { a.clone() } else { self.literal() };
             return if self.s.flag(100) { Goal::Diseq(a, b) } else { Goal::Eq(a, b) };
         }
+        // both sides spelled identically, with `_` in them: every `_` is a variable of its own,
+        // so `[_, q] != [_, q]` is satisfiable although `x != x` is not
+        if self.allow_wild && !self.in_for && self.s.flag(14) {
+            self.kinds_seen.insert("identical-spelling-with-wildcards");
+            let w1 = self.wild();
+            let other = self.var_or_lit(scope);
+            let l = match self.s.below(3) {
+                0 => w1,
+                1 => Term::list(vec![w1, other]),
+                _ => Term::improper(vec![other], w1),
+            };
+            let mut olds = vec![];
+            l.vars(&mut olds);
+            let olds: Vec<VarId> = olds.into_iter().filter(|v| self.names.wild.contains(v)).collect();
+            let map: Vec<(VarId, Term)> = olds.iter().map(|v| (*v, self.wild())).collect();
+            let r = l.map_vars(&mut |v| map.iter().find(|(o, _)| *o == v).map(|(_, n)| n.clone()).unwrap_or(Term::Var(v)));
+            return if self.s.flag(180) { Goal::Diseq(l, r) } else { Goal::Eq(l, r) };
+        }
         // a long list literal, proper or with a tail after the `|`
         if self.s.flag(12) {
             self.kinds_seen.insert("long-list-literal");
@@ -348,6 +366,10 @@ fn gen_pattern(g: &mut SurfGen, pvars: &mut Vec<VarId>, depth: usize) -> Term {
         Term::Var(v)
     };
     let mut w = [3u32, 1, 3, 1, 4, 3, 2];
+    if depth == 0 {
+        // a lone `_` as the whole pattern of an arm (catch-all without a binding)
+        w[3] = 3;
+    }
     if depth >= 2 {
         w[4] = 0;
         w[5] = 0;
@@ -457,6 +479,19 @@ pub fn gen_c13(s: &mut Source) -> (Program, Names, Vec<&'static str>) {
                 break;
             }
             let l = Term::Var(bscope[g.s.below(bscope.len())]);
+            // a goal with several answers, or one that fails outright, as (first) body goal:
+            // for matcha / matchu it matters which goal of an arm is its committed head
+            if g.s.flag(50) {
+                let (a, b) = (g.literal(), g.literal());
+                abody.push(Goal::Call(Rel::Member, vec![l, Term::list(vec![a, b])]));
+                g.kinds_seen.insert("arm-body-with-several-answers");
+                continue;
+            }
+            if g.s.flag(16) {
+                abody.push(Goal::Fail);
+                g.kinds_seen.insert("arm-body-fails");
+                continue;
+            }
             let r = if g.s.flag(128) { Term::Var(bscope[g.s.below(bscope.len())]) } else { g.tree_term(&bscope, 1) };
             abody.push(if g.s.flag(40) { Goal::Diseq(l, r) } else { Goal::Eq(l, r) });
         }
@@ -644,7 +679,16 @@ pub fn gen_c15(s: &mut Source) -> (Program, Names, Vec<&'static str>) {
                         let (a, b) = (g.fresh_id(), g.fresh_id());
                         g.names.names.insert(a, "h".to_string());
                         g.names.names.insert(b, tname.clone());
-                        let pat = if g.s.flag(128) { Term::cons(Term::Var(a), Term::Var(b)) } else { Term::list(vec![Term::Var(a), Term::Var(b)]) };
+                        // list patterns, or a compound pattern whose argument variables are typed
+                        // pattern variables (declared by the expansion in their own way)
+                        let pat = match g.s.weighted(&[4, 4, 2]) {
+                            0 => Term::cons(Term::Var(a), Term::Var(b)),
+                            1 => Term::list(vec![Term::Var(a), Term::Var(b)]),
+                            _ => {
+                                g.kinds_seen.insert("compound-pattern");
+                                Term::Cmp(Kind::Pair, vec![Term::Var(a), Term::Var(b)])
+                            }
+                        };
                         // body uses the pattern variables and an outer variable that is not the
                         // matched one and is not named h / t
                         let others: Vec<VarId> = ids.iter().copied().filter(|v| *v != t).collect();
